@@ -39,6 +39,10 @@ Definition nth_mod {A} (l : list A) (i : N) : option A :=
   | _ => nth_error l (N.to_nat (i mod N.of_nat (length l)))
   end.
 
+(** a profile-2 map whose client id is a text string: {265: "http://arm.com/psa/2.0.0", 2394: "x"} *)
+Definition mistyped_payload : bytes :=
+  match parse_hex (s2b "a21901097818687474703a2f2f61726d2e636f6d2f7073612f322e302e3019095a6178") with Some b => b | None => [] end.
+
 Definition tok_sig (t : token) : option sigv := match t with Tok _ _ s => s | TokGarbage => None end.
 
 Definition parse_ref (w : wcfg) (pool : list claims) (toks : list token) (t : bytes) : option token :=
@@ -57,12 +61,23 @@ Definition parse_ref (w : wcfg) (pool : list claims) (toks : list token) (t : by
                   if byte_eqb c "t" then Some (Tok a p s)
                   else if byte_eqb c "x" then Some (Tok a (Some [x01]) s)
                   else if byte_eqb c "n" then Some (Tok a None s)
+                  else if byte_eqb c "y" then Some (Tok a (Some mistyped_payload) s)
                   else if byte_eqb c "a" then Some (Tok None p s)
                   else None
               end
           | None => None
           end
       | [ti; tj] =>
+          if byte_eqb c "f" then
+            (* token i with the payload given in hex *)
+            match parse_N ti, parse_hex tj with
+            | Some i, Some b => match base i with
+                                | TokGarbage => Some TokGarbage
+                                | Tok a _ s => Some (Tok a (Some b) s)
+                                end
+            | _, _ => None
+            end
+          else
           match parse_N ti, parse_N tj with
           | Some i, Some j =>
               match base i with
